@@ -69,6 +69,8 @@ class RSeq:
         self.is_f64 = is_f64
         self.nanmask = nanmask
         self.arr = arr
+        self.contig = None          # (base RSeq with .arr or None, offset term) for contiguous views
+        self.valid_total = None
 
     def conc_len(self):
         return conc_int(self.length)
@@ -89,11 +91,18 @@ def rseq(I, st, v, heap=None):
     if isinstance(v, Ref):
         o = heap.get(v.id)
         if isinstance(o, SeqVal):
-            return RSeq(o.length, o.elem, o.kind, o.dtype, o.is_nd, o.is_f64, o.nanmask, getattr(o, "arr", None))
+            r = RSeq(o.length, o.elem, o.kind, o.dtype, o.is_nd, o.is_f64, o.nanmask, getattr(o, "arr", None))
+            r.valid_total = getattr(o, "valid_total", None)
+            return r
         if isinstance(o, ViewVal):
             b = heap[o.base]
             if isinstance(b, SeqVal):
-                return RSeq(o.length, lambda i, o=o, b=b: b.elem(o.idxmap(i)), "ndarray", o.dtype)
+                r = RSeq(o.length, lambda i, o=o, b=b: b.elem(o.idxmap(i)), "ndarray", o.dtype)
+                off = o.idxmap(z3.IntVal(0))
+                step = z3.simplify(o.idxmap(z3.IntVal(1)) - off)
+                if z3.is_int_value(step) and step.as_long() == 1:
+                    r.contig = (rseq(I, st, Ref(o.base), heap=heap), off)
+                return r
             if isinstance(b, Seq2Val):
                 return RSeq(o.length, lambda i, o=o, b=b: b.elem2(*o.idxmap(i)), "ndarray", o.dtype)
     raise EngineError(f"not a sequence: {v} -> {heap.get(v.id) if isinstance(v, Ref) else None}")
@@ -190,18 +199,72 @@ def fresh_seq(st, kind, dtype, length, base="a", **kw):
 
 def array_term(I, st, rs):
     """z3 Array term equal to the sequence (for SUM/MEAN/STD): fresh constant + defining axiom."""
-    if rs.arr is not None:
+    if rs.arr is not None and rs.arr.sort() == ARR:
         return rs.arr
-    key = id(rs.elem)
-    cache = st.ghost.setdefault("__arrterm", {})
-    if key in cache:
-        return cache[key][0]
-    A = z3.Const(fresh_name("sumarg"), ARR)
-    i = z3.Int(fresh_name("i"))
-    body = to_real(rs.elem(i))
-    st.assume(z3.ForAll([i], A[i] == body, patterns=[A[i]]))
-    cache[key] = (A, rs.elem)
+    A, ax = named_array(lambda k: to_real(rs.elem(k)))
+    if ax is not None:
+        done = st.ghost.setdefault("__arrterm", {})
+        if ax.get_id() not in done:
+            done[ax.get_id()] = (A, ax)
+            st.pc.append(ax)
     return A
+
+
+def _qf(f):
+    return not any(z3.is_quantifier(x) for x in _subterms(f, 400))
+
+
+def _subterms(t, limit):
+    seen, stack, n = set(), [t], 0
+    while stack and n < limit:
+        x = stack.pop()
+        if x.get_id() in seen:
+            continue
+        seen.add(x.get_id())
+        n += 1
+        yield x
+        if z3.is_app(x):
+            stack.extend(x.children())
+    if stack:
+        yield z3.ForAll([z3.Int("__big")], z3.Int("__big") == z3.Int("__big"))   # treat huge formulas as non-QF
+
+
+def entails(st, c):
+    """pc (its quantifier-free part) => c ?   (sound under-approximation of entailment)"""
+    solver = z3.Solver()
+    solver.set("timeout", 250)
+    for h in st.pc:
+        if _qf(h):
+            solver.add(h)
+    solver.add(z3.Not(c))
+    return solver.check() == z3.unsat
+
+
+def resolve(st, t):
+    """simplify a term under the path condition: decide top-level if-then-else conditions"""
+    t = z3.simplify(t)
+    if st is None:
+        return t
+    for _ in range(6):
+        if z3.is_app(t) and t.decl().kind() == z3.Z3_OP_ITE:
+            c, a, b = t.children()
+            if entails(st, c):
+                t = z3.simplify(a)
+                continue
+            if entails(st, z3.Not(c)):
+                t = z3.simplify(b)
+                continue
+        break
+    if z3.is_app(t) and t.decl().kind() in (z3.Z3_OP_ADD, z3.Z3_OP_SUB, z3.Z3_OP_MUL) and t.num_args() <= 4:
+        kids = [resolve_shallow(st, k) for k in t.children()]
+        t = z3.simplify(t.decl()(*kids))
+    return t
+
+
+def resolve_shallow(st, t):
+    if z3.is_app(t) and t.decl().kind() == z3.Z3_OP_ITE:
+        return resolve(st, t)
+    return t
 
 
 def norm_index(i, length):
@@ -324,17 +387,17 @@ def slice_bounds(sl, length, st=None):
             return z3.simplify(z3.If(t + length < 0, z3.IntVal(0), t + length))
         return z3.If(t < 0, z3.If(t + length < 0, z3.IntVal(0), t + length), z3.If(t > length, length, t))
     step = z3.IntVal(1) if sl.step is None or isinstance(sl.step, NoneV) else to_int(sl.step)
-    lo = norm(sl.lo, z3.IntVal(0))
-    hi = norm(sl.hi, length)
+    lo = resolve(st, norm(sl.lo, z3.IntVal(0)))
+    hi = resolve(st, norm(sl.hi, length))
     return lo, hi, step
 
 
-def slice_len(lo, hi, step):
+def slice_len(lo, hi, step, st=None):
     cs = conc_int(step)
     if cs == 1:
-        return z3.simplify(z3.If(hi > lo, hi - lo, z3.IntVal(0)))
+        return resolve(st, z3.If(hi > lo, hi - lo, z3.IntVal(0)))
     # ceil((hi-lo)/step) for step > 0
-    return z3.If(hi > lo, (hi - lo + step - 1) / step, z3.IntVal(0))
+    return resolve(st, z3.If(hi > lo, (hi - lo + step - 1) / step, z3.IntVal(0)))
 
 
 def getitem(I, st, obj, idx, node):
@@ -380,11 +443,11 @@ def getitem(I, st, obj, idx, node):
                     return [(st, Exc("IndexError", "float index", I.where(node)))]
                 return load_elem(I, st, rs, idx, node)
             if isinstance(idx, SliceV):
-                lo, hi, step = slice_bounds(idx, rs.length)
+                lo, hi, step = slice_bounds(idx, rs.length, st)
                 excs, ok = I.may_raise(st, step <= 0, "ValueError", "slice step must be positive (model limit)", I.where(node))
                 if ok is None:
                     return excs
-                n = slice_len(lo, hi, step)
+                n = slice_len(lo, hi, step, st)
                 if rs.kind == "ndarray":
                     # view into the root buffer
                     if isinstance(o, ViewVal):
@@ -469,23 +532,23 @@ def getitem2(I, st, ref, o, idx, node):
     if isinstance(idx, TupV) and len(idx.items) == 2:
         a, b = idx.items
         if isinstance(a, SliceV) and isinstance(b, Num):
-            lo, hi, step = slice_bounds(a, o.rows)
+            lo, hi, step = slice_bounds(a, o.rows, st)
             if conc_int(step) != 1:
                 raise EngineError("2-D strided rows")
             c = norm_index(to_int(b), o.cols)
             excs, ok = I.may_raise(st, z3.Not(z3.And(c >= 0, c < o.cols)), "IndexError", "column index", I.where(node))
             res = list(excs)
             if ok is not None:
-                res.append((ok, ok.alloc(ViewVal(ref.id, slice_len(lo, hi, step), lambda i, lo=lo, c=c: (lo + i, c), o.dtype))))
+                res.append((ok, ok.alloc(ViewVal(ref.id, slice_len(lo, hi, step, st), lambda i, lo=lo, c=c: (lo + i, c), o.dtype))))
             return res
         if isinstance(a, SliceV) and isinstance(b, SliceV):
-            rlo, rhi, rs_ = slice_bounds(a, o.rows)
-            clo, chi, cs_ = slice_bounds(b, o.cols)
+            rlo, rhi, rs_ = slice_bounds(a, o.rows, st)
+            clo, chi, cs_ = slice_bounds(b, o.cols, st)
             if conc_int(rs_) != 1 or conc_int(cs_) != 1:
                 raise EngineError("2-D strided slice")
             e2 = o.elem2
             nm = o.nanmask2
-            return [(st, st.alloc(Seq2Val(o.dtype, slice_len(rlo, rhi, rs_), slice_len(clo, chi, cs_),
+            return [(st, st.alloc(Seq2Val(o.dtype, slice_len(rlo, rhi, rs_, st), slice_len(clo, chi, cs_, st),
                                          lambda r, c, e2=e2, rlo=rlo, clo=clo: e2(rlo + r, clo + c),
                                          (lambda r, c, nm=nm, rlo=rlo, clo=clo: nm(rlo + r, clo + c)) if nm else None)))]
         if isinstance(a, Num) and isinstance(b, Num):
@@ -497,12 +560,12 @@ def getitem2(I, st, ref, o, idx, node):
                 res.append((ok, o.elem2(r, c)))
             return res
     if isinstance(idx, SliceV):
-        lo, hi, step = slice_bounds(idx, o.rows)
+        lo, hi, step = slice_bounds(idx, o.rows, st)
         if conc_int(step) != 1:
             raise EngineError("2-D strided rows")
         e2 = o.elem2
         nm = o.nanmask2
-        return [(st, st.alloc(Seq2Val(o.dtype, slice_len(lo, hi, step), o.cols, lambda r, c, e2=e2, lo=lo: e2(lo + r, c),
+        return [(st, st.alloc(Seq2Val(o.dtype, slice_len(lo, hi, step, st), o.cols, lambda r, c, e2=e2, lo=lo: e2(lo + r, c),
                                      (lambda r, c, nm=nm, lo=lo: nm(lo + r, c)) if nm else None)))]
     if isinstance(idx, Num):
         r = norm_index(to_int(idx), o.rows)
@@ -531,10 +594,10 @@ def setitem(I, st, obj, idx, v, node):
                 return store_elem(I, st, obj, idx, v, node)
             if isinstance(idx, SliceV):
                 rs = rseq(I, st, obj)
-                lo, hi, step = slice_bounds(idx, rs.length)
+                lo, hi, step = slice_bounds(idx, rs.length, st)
                 if conc_int(step) != 1:
                     raise EngineError("strided slice store")
-                n = slice_len(lo, hi, step)
+                n = slice_len(lo, hi, step, st)
                 if isinstance(v, Ref) or isinstance(v, TupV):
                     src = rseq(I, st, v)
                     if rs.kind != "ndarray":
@@ -704,6 +767,9 @@ def num_binop(I, st, op, a, b, node):
                 q = x / y
             else:
                 q = z3.If(y > 0, x / y, (-x) / (-y))
+            if cy is None:
+                # defining property of floor division by a positive symbolic divisor (z3 does not derive it for nonlinear terms)
+                ok.assume(z3.Implies(y > 0, z3.And(y * q <= x, x < y * q + y)))
             res.append((ok, Num(q if op == "FloorDiv" else x - y * q, "int")))
         return res
     if op == "Pow":
@@ -1134,6 +1200,7 @@ def listcomp(I, st, node):
         k = z3.Int(fresh_name("ck"))
         probe = I.fork(s)
         probe.assume(z3.And(k >= 0, k < n_items))
+        n_arrterms = len(probe.ghost.get("__arrterm", {}))
         saved = {}
         normal = []
         for s2, v in item(probe, k):
@@ -1156,9 +1223,18 @@ def listcomp(I, st, node):
             if s3.heap.get(hid) is not s.heap[hid]:
                 raise EngineError("comprehension element has side effects")
         extra = s3.pc[len(probe.pc):]
-        if extra:
+        dep = [e for e in extra if _mentions(e, k)]
+        indep = [e for e in extra if not _mentions(e, k)]
+        new_terms = {kk: vv for kk, vv in s3.ghost.get("__arrterm", {}).items() if kk not in s.ghost.get("__arrterm", {})}
+        for kk, (A, ax) in new_terms.items():
+            if _mentions(ax, k):
+                raise EngineError("comprehension element introduces an index-dependent array definition (model limit)")
+            s.ghost.setdefault("__arrterm", {})[kk] = (A, ax)
+        for e in indep:
+            s.assume(e)
+        if dep:
             # facts learnt for the generic index (e.g. no-raise conditions): valid for every index in range
-            s.assume(z3.ForAll([k], z3.Implies(z3.And(k >= 0, k < n_items), z3.And(*extra))))
+            s.assume(z3.ForAll([k], z3.Implies(z3.And(k >= 0, k < n_items), z3.And(*dep))))
         if not isinstance(e, Num):
             if isinstance(e, AnyV):
                 res.append((s, new_seq(s, "list", "obj", n_items, lambda i: AnyV("elem"))))
@@ -1172,6 +1248,23 @@ def listcomp(I, st, node):
         _comp_unbind(s, gen.target, saved)
         res.append((s, new_seq(s, "list", dt, n_items, lambda i, term=term, k=k, kind=kind: Num(z3.substitute(term, (k, i)), kind))))
     return res
+
+
+def _mentions(f, c):
+    cid = c.get_id()
+    seen, stack = set(), [f]
+    while stack:
+        x = stack.pop()
+        if x.get_id() in seen:
+            continue
+        seen.add(x.get_id())
+        if x.get_id() == cid:
+            return True
+        if z3.is_quantifier(x):
+            stack.append(x.body())
+        elif z3.is_app(x):
+            stack.extend(x.children())
+    return False
 
 
 def _comp_bind(I, st, target, v, saved):
